@@ -34,6 +34,7 @@ type In struct {
 	Gone    int      // index+1 of a referenced file that does not exist at the source (0 = all present)
 	Sums    []string `json:",omitempty"` // names listed ONLY in Checksums-Sha256 / Checksums-Sha1 (not in Files)
 	NoFiles bool     `json:",omitempty"` // the control file has no Files field at all
+	Skew    int      `json:",omitempty"` // index+1 of a referenced file whose listed size is 1000 bytes too small (negative: too large)
 	Link    int      `json:",omitempty"` // index+1 of a referenced file that is a symbolic link (to a regular file next to it) at the source
 	Then    string   `json:",omitempty"` // a second operation on the same handle after the first succeeded: remove | move | copy
 	Event   string   // none | fault | shortwrite | crash
@@ -41,6 +42,32 @@ type In struct {
 }
 
 const ctlBase = "hello_1.0-1"
+
+// dstRel: where the destination lies relative to the scratch root - normally a sibling of the upload's directory; "child" is
+// a directory INSIDE the upload's directory, "parent" the directory that contains it
+func (in In) dstRel() string {
+	switch in.Dest {
+	case "child":
+		return filepath.Join("incoming", "src", "queue")
+	case "parent":
+		return "incoming"
+	}
+	return filepath.Join("incoming", "dst")
+}
+
+// listedSize is the size the control file records for a referenced file: normally its real size; Skew makes the entry at
+// that index (1-based) claim 1000 bytes less (negative: more) than the file has - stale sizes happen, and Copy / Move
+// move files, they do not verify them
+func (in In) listedSize(i int, n string) int {
+	sz := len(content(n))
+	if in.Skew == i+1 {
+		sz -= 1000
+	}
+	if in.Skew == -(i + 1) {
+		sz += 1000
+	}
+	return sz
+}
 
 func (in In) ctlName() string {
 	if in.Kind == "changes" {
@@ -98,12 +125,12 @@ func (in In) controlTextFiles() string {
 	if in.Kind == "changes" {
 		sb.WriteString("Format: 1.8\nSource: hello\nBinary: hello\nArchitecture: source\nVersion: 1.0-1\nDistribution: unstable\nMaintainer: A <a@b>\nFiles:\n")
 		for i, n := range in.Names {
-			fmt.Fprintf(&sb, " %s %d devel optional %s\n", md5hex(i), len(content(n)), n)
+			fmt.Fprintf(&sb, " %s %d devel optional %s\n", md5hex(i), in.listedSize(i, n), n)
 		}
 	} else {
 		sb.WriteString("Format: 3.0 (quilt)\nSource: hello\nBinary: hello\nArchitecture: any\nVersion: 1.0-1\nMaintainer: A <a@b>\nFiles:\n")
 		for i, n := range in.Names {
-			fmt.Fprintf(&sb, " %s %d %s\n", md5hex(i), len(content(n)), n)
+			fmt.Fprintf(&sb, " %s %d %s\n", md5hex(i), in.listedSize(i, n), n)
 		}
 	}
 	return sb.String()
@@ -173,7 +200,7 @@ func execute(in In) (*result, error) {
 		return nil, err
 	}
 	defer os.RemoveAll(root)
-	src, dst := filepath.Join(root, "incoming", "src"), filepath.Join(root, "incoming", "dst")
+	src, dst := filepath.Join(root, "incoming", "src"), filepath.Join(root, in.dstRel())
 	os.MkdirAll(src, 0o755)
 	// sentinels outside both directories
 	os.WriteFile(filepath.Join(root, "sentinel"), []byte("sentinel\n"), 0o644)
@@ -225,6 +252,8 @@ func execute(in In) (*result, error) {
 			os.WriteFile(filepath.Join(dst, filepath.Base(n)), []byte(strings.Repeat("o", len(content(n)))), 0o644)
 		}
 		os.WriteFile(filepath.Join(dst, in.ctlName()), []byte(strings.Repeat("o", len(in.controlText()))), 0o644)
+	case "child", "parent":
+		os.MkdirAll(dst, 0o755)
 	case "regularfile":
 		os.WriteFile(dst, []byte("i am a file\n"), 0o644)
 	case "missing":
@@ -435,14 +464,14 @@ func check(scen string, in In) ([]*mc.Violation, *result) {
 		bad("operation-returns", "no panic", res.panicV)
 		return vs, res
 	}
-	srcRel, dstRel := filepath.Join("incoming", "src"), filepath.Join("incoming", "dst")
+	srcRel, dstRel := filepath.Join("incoming", "src"), in.dstRel()
 	ctlSrc, ctlDst := filepath.Join(srcRel, in.ctlName()), filepath.Join(dstRel, in.ctlName())
 	ctlOrig := res.before[ctlSrc]
 	ctlNow, ctlInDst := res.after[ctlDst]
 	if old, was := res.before[ctlDst]; was && ctlInDst && ctlNow == old {
 		ctlInDst = false // the untouched file of the same name that was there before is not "the control file in the destination"
 	}
-	dstIsDir := in.Dest == "emptydir" || in.Dest == "samename" || in.Dest == "samename-longer" || in.Dest == "samename-samesize"
+	dstIsDir := in.Dest == "emptydir" || in.Dest == "samename" || in.Dest == "samename-longer" || in.Dest == "samename-samesize" || in.Dest == "child" || in.Dest == "parent"
 
 	// I5 containment (always): every path the library touched lies in the control file's directory or the destination; sentinels intact
 	for _, op := range res.ops {
@@ -694,6 +723,15 @@ func Run(r *mc.Run) {
 	for _, op := range []string{"copy", "move", "remove"} {
 		bases = append(bases, In{Kind: "changes", Op: op, Names: []string{"hello_1.0.orig.tar.gz", nestedDsc}, Dest: "emptydir", Event: "none"},
 			In{Kind: "changes", Op: op, Names: []string{nestedDsc, "hello_1.0.orig.tar.gz", dscName}, Dest: "emptydir", Event: "none"})
+	}
+	// destinations inside / around the upload's own directory, and listed sizes that do not match the files
+	for _, kind := range []string{"dsc", "changes"} {
+		for _, op := range []string{"copy", "move"} {
+			bases = append(bases, In{Kind: kind, Op: op, Names: plain[2], Dest: "child", Event: "none"}, In{Kind: kind, Op: op, Names: plain[2], Dest: "parent", Event: "none"})
+			for _, sk := range []int{1, 2, -1, -2} {
+				bases = append(bases, In{Kind: kind, Op: op, Names: plain[2], Dest: "emptydir", Event: "none", Skew: sk})
+			}
+		}
 	}
 	// a referenced file that is a symbolic link at the source (Copy reads through it: the destination gets the content)
 	for _, kind := range []string{"dsc", "changes"} {
